@@ -467,3 +467,5 @@ def run(ctx):
     _b.check_predicates(ctx, 'C03.RP', 'C03')
     from .. import boundaries as _b
     _b.check_updates(ctx, 'C03.RU', 'C03')
+    from .. import boundaries as _b
+    _b.check_counts(ctx, 'C03.RQ', 'C03')
